@@ -142,7 +142,7 @@ class Recorder(object):
             _, n, now, rnd, budget = ev
             order = self._order(n)
             sim.apply(('tick', n, now, rnd, budget))
-            mev = ('tick', n, now, rnd, 200 if budget is None else budget, order, self._snaplen(n))
+            mev = ('tick', n, now, rnd, 30 if budget is None else budget, order, self._snaplen(n))
         elif k == 'deliver':
             _, a, b, now, rnd = ev
             order = self._order(b)
@@ -206,20 +206,53 @@ class Scheduler(object):
         self.alive = set()
         self.opts = {}
         self.members = list(voters)
+        self.fresh_pair = {}      # (a, b): a has connected, b has not yet (the pair is half established)
+        self.pool = []
+        self.pending_add = []
 
     def view(self, a, b):
         return a in self.sim.nodes and b in self.sim.tr(a).connected
 
-    def boot(self, members=None):
+    def boot(self, members=None, ro=()):
         cfg = self.rec.cfg
+        self.members = list(members or self.voters)
         for n in self.voters:
-            oth = [x for x in (members or self.voters) if x != n]
+            oth = [x for x in self.members if x != n]
             self.rec.do(('restart', n, oth, self.clock[n], self.rng.randrange(cfg['tspan'])))
             self.alive.add(n)
         for a in self.voters:
             for b in self.voters:
                 if a != b:
-                    self.rec.do(('connect', a, b))
+                    self.connect(a, b)
+        for r in ro:
+            self.start_ro(r)
+
+    def start_ro(self, r):
+        self.clock.setdefault(r, 0)
+        self.clock[r] += 1
+        self.rec.do(('restart', r, list(self.members), self.clock[r], self.rnd()))
+        self.alive.add(r)
+        for v in self.members:
+            if v in self.alive and self.rng.random() < 0.8:
+                self.connect(r, v)
+                self.connect(v, r)
+
+    def can_link(self, a, b):
+        """a connection a<->b can exist: both processes run, each knows the other as a member
+        (a read-only node is known to nobody and only talks to voters)"""
+        if a == b or a not in self.sim.nodes or b not in self.sim.nodes:
+            return False
+        if a >= RO_BASE and b >= RO_BASE:
+            return False
+        if a < RO_BASE and b not in self.sim.tr(a).members and b < RO_BASE:
+            return False
+        if b < RO_BASE and a not in self.sim.tr(b).members and a < RO_BASE:
+            return False
+        if a >= RO_BASE and b not in self.sim.tr(a).members:
+            return False
+        if b >= RO_BASE and a not in self.sim.tr(b).members:
+            return False
+        return True
 
     def rnd(self):
         return self.rng.randrange(self.rec.cfg['tspan'])
@@ -264,10 +297,19 @@ class Scheduler(object):
     def drop(self, a, b):
         if self.view(a, b):
             self.rec.do(('drop', a, b))
+            self.fresh_pair.pop((a, b), None)
+            self.fresh_pair.pop((b, a), None)
 
     def connect(self, a, b):
-        if a in self.sim.nodes and not self.view(a, b):
+        if self.can_link(a, b) and not self.view(a, b):
+            if self.view(b, a) and not self.fresh_pair.get((b, a)):
+                # b still believes in an older connection: it has to notice its loss first
+                self.rec.do(('drop', b, a))
             self.rec.do(('connect', a, b))
+            self.fresh_pair[(a, b)] = True
+            if self.view(b, a):
+                self.fresh_pair.pop((a, b), None)
+                self.fresh_pair.pop((b, a), None)
 
     def partition(self, group):
         for a in self.alive:
@@ -278,14 +320,11 @@ class Scheduler(object):
     def heal(self):
         for a in sorted(self.alive):
             for b in sorted(self.alive):
-                if a != b and not self.view(a, b) and not self.view(b, a):
-                    self.connect(a, b)
-                    self.connect(b, a)
-                elif a != b and not self.view(a, b) and self.view(b, a):
-                    # b has not noticed yet: it must notice before a new connection exists
-                    self.drop(b, a)
-                    self.connect(a, b)
-                    self.connect(b, a)
+                if a < b and self.can_link(a, b):
+                    if not self.view(a, b):
+                        self.connect(a, b)
+                    if not self.view(b, a):
+                        self.connect(b, a)
 
     def kill(self, n):
         self.rec.do(('kill', n))
@@ -301,7 +340,7 @@ class Scheduler(object):
         self.rec.do(('restart', n, oth, self.clock[n], self.rnd()))
         self.alive.add(n)
         for x in sorted(self.alive):
-            if x != n and x < RO_BASE and n < RO_BASE:
+            if x != n:
                 self.connect(n, x)
                 self.connect(x, n)
 
@@ -317,7 +356,7 @@ class Scheduler(object):
             return self.submit(self.rng.choice(live), raises=True)
         if r < 0.08 and opts.get('budget'):
             return self.tick(self.rng.choice(live), budget=self.rng.choice([0, 1, 2, 5]))
-        if r < 0.10 and opts.get('kill') and len(live) >= 2:
+        if r < 0.10 and opts.get('kill') and len(live) >= 2 and not self.rec.cfg.get('journal'):
             dead = [x for x in self.voters if x not in self.alive]
             if dead and self.rng.random() < 0.6:
                 return self.restart(self.rng.choice(dead))
@@ -434,4 +473,177 @@ def random_trace(seed, n_events=200, workdir=None, keep_obs=False, cfg=None, lis
         else:
             for _ in range(rng.randrange(1, 25)):
                 sch.random_step()
+    return rec
+
+
+# ---- specialised trace generators ---------------------------------------------------------------
+def ro_trace(seed, n_events=250, workdir=None, keep_obs=False, listeners=()):
+    """clusters with 0-3 read-only nodes joining, leaving and re-joining; commands through them"""
+    rng = random.Random(seed)
+    size = rng.choice([1, 2, 3, 3, 4])
+    voters = list(range(1, size + 1))
+    cfg = default_cfg(rng, voters)
+    cfg['queue'] = 1000
+    rec = Recorder(cfg, workdir)
+    rec.keep_obs = keep_obs
+    rec.listeners = list(listeners)
+    sch = Scheduler(rec, rng, voters)
+    sch.opts = dict(big=rng.random() < 0.2, budget=rng.random() < 0.2)
+    rec.opts = sch.opts
+    n_ro = rng.choice([1, 1, 2, 3])
+    ros = [RO_BASE + i for i in range(n_ro)]
+    sch.boot(ro=[r for r in ros if rng.random() < 0.6])
+    while len(rec.mevents) < n_events:
+        r = rng.random()
+        live_ro = [x for x in ros if x in sch.alive]
+        if r < 0.05:
+            dead = [x for x in ros if x not in sch.alive]
+            if dead:
+                sch.start_ro(rng.choice(dead))
+        elif r < 0.08 and live_ro:
+            x = rng.choice(live_ro)
+            sch.rec.do(('kill', x))
+            sch.alive.discard(x)
+            for v in voters:
+                if sch.view(v, x):
+                    sch.rec.do(('drop', v, x))
+        elif r < 0.25 and live_ro:
+            sch.submit(rng.choice(live_ro), cb=rng.random() < 0.8)
+        elif r < 0.32 and live_ro:
+            x = rng.choice(live_ro)
+            sch.tick(x)
+        elif r < 0.65:
+            sch.calm_round()
+        else:
+            for _ in range(rng.randrange(1, 12)):
+                sch.random_step()
+    return rec
+
+
+def member_trace(seed, n_events=300, workdir=None, keep_obs=False, listeners=()):
+    """dynamic membership under the documented operator discipline: an added node is started empty with
+    the current member list (then the request is issued on any node); a node whose removal was applied
+    somewhere (hence committed) is shut down for good"""
+    from harness.raft_monitor import Monitor
+    rng = random.Random(seed)
+    pool = [1, 2, 3, 4, 5, 6]
+    size = rng.choice([1, 2, 3, 3])
+    voters = pool[:size]
+    cfg = default_cfg(rng, voters)
+    cfg['dyn'] = True
+    cfg['queue'] = 1000
+    rec = Recorder(cfg, workdir)
+    rec.keep_obs = keep_obs
+    mon = None
+    for l in listeners:
+        if isinstance(l, Monitor):
+            mon = l
+    if mon is None:
+        mon = Monitor()
+        listeners = list(listeners) + [mon]
+    rec.listeners = list(listeners)
+    sch = Scheduler(rec, rng, voters)
+    sch.opts = dict(budget=rng.random() < 0.1)
+    rec.opts = sch.opts
+    sch.boot()
+    members = set(voters)           # the operator's view: adds requested and not yet known removed
+    removed = set()
+    seen_rem = set()
+    while len(rec.mevents) < n_events:
+        # operator reaction: removal applied somewhere => that process is shut down
+        for idx, cmdb in list(mon.cmd_at.items()):
+            if idx in seen_rem:
+                continue
+            kind, a, b = rec.sim.cid_of_command(cmdb)
+            if kind == 2:
+                seen_rem.add(idx)
+                if a == 2:
+                    removed.add(b)
+                    members.discard(b)
+                    if b in sch.alive:
+                        mon.retired.add(b)
+                        sch.kill(b)
+                        sch.voters = [v for v in sch.voters if v != b]
+        sch.members = sorted(members)
+        r = rng.random()
+        live = sorted(sch.alive)
+        if not live:
+            break
+        if r < 0.08:
+            cand = [x for x in pool if x not in members and x not in removed and x not in sch.alive]
+            if cand and len(members) < 5:
+                x = rng.choice(cand)
+                sch.voters.append(x)
+                sch.clock.setdefault(x, 0)
+                sch.clock[x] += 1
+                rec.do(('restart', x, sorted(members), sch.clock[x], sch.rnd()))
+                sch.alive.add(x)
+                members.add(x)
+                cbid = sch.next_cid
+                sch.next_cid += 1
+                rec.do(('admin', rng.choice(live), True, x, cbid if rng.random() < 0.8 else 0))
+        elif r < 0.14 and len(members) > 1:
+            x = rng.choice(sorted(members))
+            cbid = sch.next_cid
+            sch.next_cid += 1
+            rec.do(('admin', rng.choice(live), False, x, cbid if rng.random() < 0.8 else 0))
+        elif r < 0.17:
+            # a second request while one may be pending, or a duplicate / unknown node
+            x = rng.choice(pool)
+            cbid = sch.next_cid
+            sch.next_cid += 1
+            if x in removed or (x not in sch.alive and x not in members):
+                continue
+            rec.do(('admin', rng.choice(live), rng.random() < 0.5, x, cbid))
+            if x not in members and x in sch.alive:
+                members.add(x)
+        elif r < 0.7:
+            sch.calm_round()
+        else:
+            for _ in range(rng.randrange(1, 10)):
+                sch.random_step()
+    return rec
+
+
+def journal_trace(seed, n_events=300, workdir=None, keep_obs=False, listeners=()):
+    """journaled nodes (journal file, optionally a dump file) killed and restarted at any step, up to all at once"""
+    rng = random.Random(seed)
+    size = rng.choice([1, 2, 3, 3, 3, 4])
+    voters = list(range(1, size + 1))
+    cfg = default_cfg(rng, voters)
+    cfg['journal'] = 'file'
+    cfg['dump'] = rng.choice(['file', 'file', None])
+    cfg['queue'] = 1000
+    cfg['batch'] = rng.choice([200, 1000, 65536])
+    if cfg['dump'] is None:
+        cfg['min_entries'] = 10 ** 9      # journal-only nodes with in-memory compaction forget their state (KF-C06-D18)
+        cfg['min_time'] = 10 ** 9
+    rec = Recorder(cfg, workdir)
+    rec.keep_obs = keep_obs
+    rec.listeners = list(listeners)
+    sch = Scheduler(rec, rng, voters)
+    sch.opts = dict(kill=True, big=rng.random() < 0.2)
+    rec.opts = sch.opts
+    sch.boot()
+    while len(rec.mevents) < n_events:
+        r = rng.random()
+        live = sorted(sch.alive)
+        dead = [x for x in voters if x not in sch.alive]
+        if r < 0.06 and live:
+            sch.kill(rng.choice(live))
+        elif r < 0.08 and live:
+            for x in list(live):           # everybody at once
+                sch.kill(x)
+        elif r < 0.2 and dead:
+            sch.restart(rng.choice(dead))
+        elif not live:
+            sch.restart(rng.choice(dead))
+        elif r < 0.25 and cfg['dump']:
+            rec.do(('compact', rng.choice(live)))
+        elif r < 0.7:
+            sch.calm_round()
+        else:
+            for _ in range(rng.randrange(1, 10)):
+                if sch.alive:
+                    sch.random_step()
     return rec
